@@ -167,6 +167,94 @@ func c02(c *Ctx) {
 			}}
 		c.MustPass("queued-trailers-then-cleanup", q, wh)
 	})
+	c.Ob("payload-handling", "R12", "sender (client and server write): the frame item carries the caller's header and data, a reference on the data is taken before the item is queued and dropped again only when queueing failed, quota for len(hdr)+len(data) is obtained first; writer: the item's data is loaded into the reader once (first time the item is processed) and released, the bytes peeked for a frame are exactly the bytes discarded after it", 10, func() {
+		fData := c.field(tr, "dataFrame", "data")
+		fH := c.field(tr, "dataFrame", "h")
+		fProc := c.field(tr, "dataFrame", "processing")
+		for _, fn := range []string{"http2Client.write", "http2Server.write"} {
+			f := c.fn(tr, fn)
+			put := one(c, "controlBuf.put in "+fn, callsIn(f, Callee(tr, "controlBuffer.put")))
+			ref := one(c, "data.Ref in "+fn, callsIn(f, Callee("mem", "BufferSlice.Ref")))
+			c.ArgIs(ref, 0, fn+":refs-the-callers-data", ParamV("data"))
+			c.Dominates(ref, put, fn+":ref-before-queueing")
+			perr := func(v ssa.Value) bool { return v == put.Value() }
+			frees := callsIn(f, Callee("mem", "BufferSlice.Free"))
+			if c.Expect(len(frees) == 1, nil, f, fn+":one-free", "expected exactly one release of the data in the write path (queueing failed)") {
+				c.MustFact(frees[0], fn+":released-only-if-queueing-failed", NotNil(perr))
+				c.ArgIs(frees[0], 0, fn+":releases-the-callers-data", ParamV("data"))
+			}
+			for _, r := range successReturns(f, 0) {
+				c.Unreachable(r, fn+":queueing-failure-is-reported", NotNil(perr))
+			}
+			// the queued item is built from the caller's buffers
+			al, ok := put.Common().Args[1].(*ssa.MakeInterface)
+			okItem := false
+			if ok {
+				if a, isA := al.X.(*ssa.Alloc); isA {
+					okD, okH := false, false
+					for _, st := range partStoresTo(a) {
+						fa, isF := st.Addr.(*ssa.FieldAddr)
+						if !isF {
+							continue
+						}
+						if sameField(fieldOfAddr(fa), fData) && ParamV("data")(st.Val) {
+							okD = true
+						}
+						if sameField(fieldOfAddr(fa), fH) && ParamV("hdr")(st.Val) {
+							okH = true
+						}
+					}
+					okItem = okD && okH
+				}
+			}
+			c.Expect(okItem, put, f, fn+":item-carries-callers-header-and-data", "the queued data item is not built from the caller's header and data")
+			get := one(c, "wq.get in "+fn, callsIn(f, Callee(tr, "writeQuota.get")))
+			if fn == "http2Server.write" {
+				c.Dominates(get, put, fn+":quota-before-queueing")
+			} else {
+				// the client skips the quota for an entirely empty frame
+				c.MustPass(fn+":quota-before-queueing", pathQuery{Fn: f, AtEntry: true, Barrier: func(in ssa.Instruction) bool { return in == ssa.Instruction(get) }, Target: func(in ssa.Instruction) bool { return in == ssa.Instruction(put) },
+					EdgeBlock: func(from, to *ssa.BasicBlock) bool {
+						_, ok := hasFact(edgeFacts(from, to), CmpInt(CallRes(Callee("mem", "BufferSlice.Len"), 0), token.EQL, 0))
+						return ok
+					}}, nil)
+			}
+			c.Unreachable(put, fn+":no-queueing-without-quota", NotNil(func(v ssa.Value) bool { return v == get.Value() }))
+			c.ArgIs(get, 1, fn+":quota-for-header-plus-data", func(v ssa.Value) bool {
+				b, ok := stripConv(v).(*ssa.BinOp)
+				return ok && b.Op == token.ADD && (LenOf(ParamV("hdr"))(b.X) && CallRes(Callee("mem", "BufferSlice.Len"), 0)(b.Y) || LenOf(ParamV("hdr"))(b.Y) && CallRes(Callee("mem", "BufferSlice.Len"), 0)(b.X))
+			})
+		}
+		pd := c.fn(tr, "loopyWriter.processData")
+		rs := one(c, "reader.Reset", callsIn(pd, Callee("mem", "Reader.Reset")))
+		c.ArgIs(rs, 1, "reader-loaded-from-the-item's-data", FieldLoad(fData))
+		c.MustFact(rs, "loaded-only-the-first-time", Truth(FieldLoad(fProc), false))
+		okFlag := false
+		for _, st := range storesToField(pd, fProc) {
+			if ConstBool(true)(st.Val) && st.Block() == rs.Block() {
+				okFlag = true
+			}
+		}
+		c.Expect(okFlag, rs, pd, "first-time-flag-set-with-the-load", "the item is not marked as being processed where its data is loaded (it would be loaded again, duplicating bytes)")
+		// every path to the write passes the first-time test
+		wd := one(c, "writeData", callsIn(pd, Callee(tr, "framer.writeData")))
+		c.MustPass("data-loaded-before-first-write", pathQuery{Fn: pd, AtEntry: true, Barrier: func(in ssa.Instruction) bool { return in == ssa.Instruction(rs) }, Target: func(in ssa.Instruction) bool { return in == ssa.Instruction(wd) },
+			EdgeBlock: func(from, to *ssa.BasicBlock) bool {
+				_, ok := hasFact(edgeFacts(from, to), Truth(FieldLoad(fProc), true))
+				return ok
+			}}, nil)
+		fr := callsIn(pd, Callee("mem", "BufferSlice.Free"))
+		if c.Expect(len(fr) == 1, nil, pd, "item-data-released-once", "expected one release of the item's data in the data step") {
+			c.Expect(fr[0].Block() == rs.Block() && instrDominates(rs, fr[0]), fr[0], pd, "released-after-loading", "the item's data is released before / apart from being loaded into the reader")
+		}
+		pk := one(c, "reader.Peek", callsIn(pd, Callee("mem", "Reader.Peek")))
+		dc := one(c, "reader.Discard", callsIn(pd, Callee("mem", "Reader.Discard")))
+		c.Expect(pk.Common().Args[1] == dc.Common().Args[1], dc, pd, "discards-what-was-peeked", "the number of bytes discarded after a frame differs from the number peeked into it")
+		c.Dominates(wd, dc, "discard-after-write")
+		c.Expect(instrDominates(dc, one(c, "bytesOutStanding update", storesToField(pd, c.field(tr, "outStream", "bytesOutStanding")))), dc, pd, "discard-on-every-write-path", "the written bytes are not discarded on every path after the write")
+		// the frame payload is header prefix then peeked data
+		c.ArgIs(wd, 3, "payload-is-the-write-buffer", FieldLoad(c.field(tr, "loopyWriter", "writeBuf")))
+	})
 	c.Ob("cleanup", "R3", "stream cleanup removes the stream from the writer's table (and from the active list, and drains its queue) before any RST_STREAM is written; finishing a server stream enqueues its trailers only on the first transition to done", 5, func() {
 		f := c.fn(tr, "loopyWriter.cleanupStreamHandler")
 		fEstd := c.field(tr, "loopyWriter", "estdStreams")
